@@ -5,6 +5,7 @@ import copy
 import random
 from typing import Any
 
+from ..engine import evtypes as ET
 from ..engine import live, monitors, specgen, suite
 from ..runner import Divergence, Driver, Env, Outcome, Violation, diff_streams
 
@@ -144,10 +145,18 @@ def _resume_runs(env: Env, out: Outcome, n: int, extra: list[dict]) -> None:
                 v.signature = "C10/rehydration_window_double_replay"
             out.violations.append(v)
         # a waiter whose timeout had fired before the snapshot must still raise after resume
+        def _same(rec_wid, w) -> bool:
+            # auto-generated ids are recorded as auto<k> (k = the invocation's own requirement value)
+            if isinstance(rec_wid, str) and rec_wid.startswith("auto"):
+                ty, _, k = rec_wid[4:].partition(":")
+                return (repr((w.requirements or {}).get("k")) == k and w.waiting_for_event is ET.TYPES[int(ty)]
+                        and str(w.waiter_id).startswith("waiter_"))
+            return rec_wid == w.waiter_id
+
         for nm, w in waiting:
-            already = any(r[0] == "wait_timeout" and r[1] == nm and r[5]["wid"] == w.waiter_id for r in tr1.steps)
+            already = any(r[0] == "wait_timeout" and r[1] == nm and _same(r[5]["wid"], w) for r in tr1.steps)
             if w.timed_out and w.resolved_event is None and not already:
-                raised = any(r[0] == "wait_timeout" and r[1] == nm and r[5]["wid"] == w.waiter_id for r in tr2.steps)
+                raised = any(r[0] == "wait_timeout" and r[1] == nm and _same(r[5]["wid"], w) for r in tr2.steps)
                 wuid = getattr(w.event, "uid", None)
                 replayed_to_end = any(r[0] == "exit" and r[1] == nm and r[2] == wuid and r[5].get("status") == "ok" for r in tr2.steps)
                 stuck = tr2.outcome[0] in ("cancelled", "deadlock") and any("stuck" in n for n in tr2.notes)
